@@ -297,6 +297,31 @@ def gen_exact(ctx):
     return {"op": "approx", "dgms": dgms, "hom_deg": hd, "start": s, "stop": e, "n": n, "kind": "x-" + kind, "exact": True}
 
 
+def gen_stress(ctx):
+    """float-stress: decimal grids (step 0.1, 0.05, 0.3/7 ...) with endpoints on decimal nodes and midpoints, where
+    np.linspace / |grid-x| round and an argmin tie can flip either way; only the bound is asserted on razor cases"""
+    r = ctx.rng
+    n = r.choice([4, 6, 8, 11, 21, 31, 41, 101])
+    unit = r.choice([0.1, 0.7, 1.0 / 3.0, 0.3, 1e-3, 187 * 0.2])
+    start = r.choice([0.0, 0.1, -0.3, 1.0 / 3.0, 0.7])
+    stop = start + unit * (n - 1)
+    gv = np.linspace(start, stop, n)
+    dgms = [[]]
+    for _ in range(r.randint(1, ctx.n(8, 25))):
+        i, j = sorted(r.sample(range(n), 2))
+        where = r.choice(["node", "mid", "mid", "near"])
+        if where == "node":
+            b, d = float(gv[i]), float(gv[j])
+        elif where == "mid":
+            b, d = (float(gv[i]) + float(gv[min(i + 1, n - 1)])) / 2, (float(gv[j - 1]) + float(gv[j])) / 2
+        else:
+            b, d = start + unit * (i + 0.5), start + unit * (j - 0.5)       # the midpoint computed another way
+        if b > d:
+            b, d = d, b
+        dgms[0].append([min(max(b, start), stop), min(max(d, start), stop)])
+    return {"op": "approx", "dgms": dgms, "hom_deg": 0, "start": start, "stop": stop, "n": n, "kind": "stress", "exact": False}
+
+
 def gen_malformed(ctx):
     r = ctx.rng
     k = r.choice(["empty-default", "all-inf", "missing-degree", "no-diagrams", "zero-steps", "zero-steps-empty", "one-step"])
@@ -417,6 +442,8 @@ def stream_approx(ctx, corr_failures):
         cases.append(gen_exact(ctx))
     for _ in range(ctx.n(40, 200)):
         cases.append(gen_malformed(ctx))
+    for _ in range(ctx.n(400, 3000)):
+        cases.append(gen_stress(ctx))
     answers = ask([approx_line(c) for c in cases])
     for c, ans in zip(cases, answers):
         check_approx_case(ctx, c, ans, corr_failures)
@@ -691,7 +718,7 @@ def replay(ctx, rep):
 
 
 MANIFEST = {
-    "text": "Proof: Lean theorems about the model of PersLandscapeApprox / ndsnap_regular / vectorize / PersistenceLandscaper / "
+    "text": "Proof: 19 Lean theorems about the model of PersLandscapeApprox / ndsnap_regular / vectorize / PersistenceLandscaper / "
             "death_vector over every linear ordered field: the k-th largest value is 1-Lipschitz in the sup norm, the nearest grid "
             "node is within step/2 (an on-grid point is fixed), the two ramp loops write exactly the positive tent values of the "
             "snapped bars, hence for every diagram, every num_steps >= 2 and every covering grid each sampled value is within "
